@@ -48,7 +48,9 @@ def parseOpts : Target × Bool → List String → Option (Target × Bool)
   | r, [] => some r
   | (t, sba), o :: os =>
     if o == "B" then parseOpts (t, true) os
-    else if o == "L" || o == "S" || o == "D" then parseOpts (t, sba) os
+    -- `Q`: a pipeline name given together with no-pipeline mode (the harness only does that in no-pipeline mode): the
+    -- loop over the pipelines is not entered, exactly one module is built, so the name checks after it pass
+    else if o == "L" || o == "S" || o == "D" || o == "Q" then parseOpts (t, sba) os
     else none
 
 def parseTarget (s : String) : Option (Target × Bool) :=
@@ -98,6 +100,8 @@ structure Entry where
   /-- `U`: the sized array layer is part of a typedef (`typedef T TA[n]; TA name;`): the BASE type of the declaration
       is an array, which is what the register-class lookup of the annotation loop sees -/
   typedefArr : Bool := false
+  /-- `M<n>` (cbuffer): the first member `<name>_v` carries an annotation: 0 a register, 1 a semantic -/
+  memberAnn : Option Nat := none
   deriving Repr
 
 def parseFlag (e : Entry) (f : String) : Option Entry :=
@@ -119,6 +123,8 @@ def parseFlag (e : Entry) (f : String) : Option Entry :=
   else if f == "q" then some { e with staticSs := true }
   else if f == "Y" then some { e with extras := e.extras ++ [none] }
   else if f == "U" then some { e with typedefArr := true }
+  else if f == "M0" then some { e with memberAnn := some 0 }
+  else if f == "M1" then some { e with memberAnn := some 1 }
   -- spellings that leave the typed declaration as it is: `const`, a typedef of the object type, a nested namespace,
   -- declared after the functions / after the pipelines (later entries are at least as late: request order = source
   -- order), the array length as a constant expression `x<n>`, the kind of an unbound root definition `F<n>`
@@ -250,6 +256,14 @@ def fixTypedefArr : List Entry → List Entry
 def Entry.annBase (e : Entry) (k : ObjKind) : Option ObjKind :=
   if e.typedefArr && !(ownAnns e false).isEmpty then none else some k
 
+/-- the members of a cbuffer the generator writes: `<name>_v` first (with the `M<n>` annotation if any), the padding
+    members carry no annotation -/
+def Entry.members (e : Entry) : List (String × List Annotation) :=
+  match e.decl, e.memberAnn with
+  | .cbuffer _, some 0 => [(e.name ++ "_v", [.register { slot := some (.B, 0), space := none }])]
+  | .cbuffer _, some _ => [(e.name ++ "_v", [.semantic])]
+  | _, _ => [(e.name ++ "_v", [])]
+
 /-- the storage-class keywords in front of the type of the declaration whose first declarator is `h` -/
 def Entry.mods (h : Entry) : List StorageMod :=
   let ms := (if h.isStatic then [if h.groupShared then StorageMod.groupShared else StorageMod.static] else []) ++
@@ -276,7 +290,7 @@ def groupEntries : List Entry →
     | _, _, none =>
       flush ++ (match e.decl with
         | .other => [RootItem.other e.name]
-        | .cbuffer _ => [RootItem.cbuffer e.name (declAttrs e) (ownAnns e false)]
+        | .cbuffer _ => [RootItem.cbuffer e.name (declAttrs e) e.members (ownAnns e false)]
         -- a global that is not an object (`static const int x`)
         | .global _ _ _ _ => [RootItem.globals (declAttrs e) none [.static] [e.declarator false]]) ++ groupEntries es none
 
